@@ -398,23 +398,64 @@ theorem accepted_has_intended_type (m : Macro) (goal : AExpr) (th : Thm) :
 example : accept .intEval (.eq .other (.plus .other (.one .other) (.one .other)) (.ofNat .other (.bit0 (.one .nat))))
     = .error .assertion := by decide +kernel
 
-/-! ### decisions taken on approximations (not modelled: conditional statements only) -/
+/-! ### decisions taken from enclosures (the interval evaluator itself is not modelled) -/
 
-/-- If the two computed values are within `ε` of the true ones and they are more than `2ε` apart,
-the strict comparison read off the approximations is true.  (The float code checked no margin.) -/
-theorem approx_decision_sound (x y x' y' ε : Rat) (hx1 : x ≤ x' + ε) (hy1 : y' - ε ≤ y)
-    (hm : x' + 2 * ε < y') : x < y := by
+/-- The six accept conditions of `eval_inequality_expr` (fixes/C05-2) are pinned in the model
+(`intervalAccept`, tied to the Python by the `interval-decision` correspondence stream): whenever the
+bounds enclose the two values and the condition holds, the accepted relation is true. -/
+theorem interval_accept_sound (r : Rel) (x y lo1 hi1 lo2 hi2 : Rat)
+    (hx : lo1 ≤ x ∧ x ≤ hi1) (hy : lo2 ≤ y ∧ y ≤ hi2) :
+    intervalAccept r lo1 hi1 lo2 hi2 = true → r.holds x y := by
+  rcases r with _ | _ | op
+  · simp only [intervalAccept, Rel.holds, Bool.and_eq_true, beq_iff_eq]; grind
+  · simp only [intervalAccept, Rel.holds, Bool.or_eq_true, decide_eq_true_eq]; grind
+  · cases op <;> simp only [intervalAccept, Rel.holds, decide_eq_true_eq] <;> grind
+
+example : intervalAccept (.cmp .le) 1 2 2 3 = true ∧ intervalAccept (.cmp .le) 1 2 (3/2) 3 = false := by decide +kernel
+
+/-- ... and none of the six conditions can be relaxed: if the condition fails there are values inside
+the enclosures for which the relation is false (so accepting `a ≤ b` when the enclosures merely
+overlap, or an equality between inexact sides, asserts something the bounds do not justify). -/
+theorem interval_accept_tight (r : Rel) (lo1 hi1 lo2 hi2 : Rat) (h1 : lo1 ≤ hi1) (h2 : lo2 ≤ hi2) :
+    intervalAccept r lo1 hi1 lo2 hi2 = false →
+      ∃ x y, (lo1 ≤ x ∧ x ≤ hi1) ∧ (lo2 ≤ y ∧ y ≤ hi2) ∧ ¬ r.holds x y := by
+  intro h
+  rcases r with _ | _ | op
+  · simp only [intervalAccept, Rel.holds] at h ⊢
+    by_cases e1 : lo1 = hi1
+    · by_cases e2 : lo2 = hi2
+      · refine ⟨lo1, lo2, ⟨Rat.le_refl, h1⟩, ⟨Rat.le_refl, h2⟩, ?_⟩
+        intro e; simp [e1, e2] at h; grind
+      · by_cases e3 : lo1 = lo2
+        · exact ⟨lo1, hi2, ⟨Rat.le_refl, h1⟩, ⟨h2, Rat.le_refl⟩, by grind⟩
+        · exact ⟨lo1, lo2, ⟨Rat.le_refl, h1⟩, ⟨Rat.le_refl, h2⟩, e3⟩
+    · by_cases e3 : lo1 = lo2
+      · exact ⟨hi1, lo2, ⟨h1, Rat.le_refl⟩, ⟨Rat.le_refl, h2⟩, by grind⟩
+      · exact ⟨lo1, lo2, ⟨Rat.le_refl, h1⟩, ⟨Rat.le_refl, h2⟩, e3⟩
+  · simp only [intervalAccept, Rel.holds, Bool.or_eq_false_iff, decide_eq_false_iff_not] at h ⊢
+    -- the enclosures overlap: a common point
+    by_cases c : lo1 ≤ lo2
+    · exact ⟨lo2, lo2, ⟨c, by grind⟩, ⟨Rat.le_refl, h2⟩, by simp⟩
+    · exact ⟨lo1, lo1, ⟨Rat.le_refl, h1⟩, ⟨by grind, by grind⟩, by simp⟩
+  · cases op <;> simp only [intervalAccept, Rel.holds, decide_eq_false_iff_not] at h ⊢
+    · exact ⟨hi1, lo2, ⟨h1, Rat.le_refl⟩, ⟨Rat.le_refl, h2⟩, h⟩
+    · exact ⟨hi1, lo2, ⟨h1, Rat.le_refl⟩, ⟨Rat.le_refl, h2⟩, h⟩
+    · exact ⟨lo1, hi2, ⟨Rat.le_refl, h1⟩, ⟨h2, Rat.le_refl⟩, h⟩
+    · exact ⟨lo1, hi2, ⟨Rat.le_refl, h1⟩, ⟨h2, Rat.le_refl⟩, h⟩
+
+example : ∃ x y : Rat, (1 ≤ x ∧ x ≤ 2) ∧ ((3/2 : Rat) ≤ y ∧ y ≤ 3) ∧ ¬ (Rel.cmp .le).holds x y :=
+  interval_accept_tight (.cmp .le) 1 2 (3/2) 3 (by decide +kernel) (by decide +kernel) (by decide +kernel)
+
+/-- An approximation `x'` known to be within `ε` of `x` is the enclosure `[x' - ε, x' + ε]`.  From two such
+enclosures the model accepts `x < y` exactly when the margin exceeds `2ε`, and then `x < y` holds.  (The
+float code removed by fixes/C05-2 decided `x' < y'` with no margin at all.) -/
+theorem approx_decision_sound (x y x' y' ε : Rat) (hx : x' - ε ≤ x ∧ x ≤ x' + ε)
+    (hy : y' - ε ≤ y ∧ y ≤ y' + ε) :
+    (intervalAccept (.cmp .lt) (x' - ε) (x' + ε) (y' - ε) (y' + ε) = true ↔ x' + 2 * ε < y') ∧
+      (x' + 2 * ε < y' → x < y) := by
+  simp only [intervalAccept, decide_eq_true_eq]
   grind
 
-example : (1 : Rat) < 2 := approx_decision_sound 1 2 1 2 (1/4) (by decide +kernel) (by decide +kernel) (by decide +kernel)
-
-/-- The decision rule of fixes/C05-2: if the bounds enclose the values and are separated, the
-comparison holds. -/
-theorem interval_decision_sound (x y lo1 hi1 lo2 hi2 : Rat) (hx : lo1 ≤ x ∧ x ≤ hi1)
-    (hy : lo2 ≤ y ∧ y ≤ hi2) : (hi1 < lo2 → x < y) ∧ (hi1 ≤ lo2 → x ≤ y) ∧ (hi1 < lo2 ∨ hi2 < lo1 → x ≠ y) := by
-  grind
-
-example : (1 : Rat) ≠ 3 := (interval_decision_sound 1 3 (1/2) (3/2) (5/2) (7/2) (by decide +kernel) (by decide +kernel)).2.2
-  (Or.inl (by decide +kernel))
+example : intervalAccept (.cmp .lt) (1 - 1/4) (1 + 1/4) (2 - 1/4) (2 + 1/4) = true := by decide +kernel
 
 end Holpy.C05
